@@ -82,6 +82,28 @@ func ruleTagHeaderBits(c *Ctx) {
 	c.touched(fname(wt))
 	c.touched(fname(rd))
 	e := newBitEval(p, wt)
+	// the value rotated into the timestamp bytes is called "timestamp" whatever the local is named
+	instrs(wt, func(ins ssa.Instruction) {
+		or, ok := ins.(*ssa.BinOp)
+		if !ok || or.Op != token.OR {
+			return
+		}
+		l, ok1 := or.X.(*ssa.BinOp)
+		r, ok2 := or.Y.(*ssa.BinOp)
+		if !ok1 || !ok2 {
+			return
+		}
+		if l.Op == token.SHR {
+			l, r = r, l
+		}
+		if l.Op == token.SHL && r.Op == token.SHR && l.X == r.X {
+			if a, ok := constInt(l.Y); ok && a == 8 {
+				if b, ok := constInt(r.Y); ok && b == 24 {
+					e.names[l.X] = "timestamp"
+				}
+			}
+		}
+	})
 	e.run()
 	arr := byteArrayAlloc(wt, 12)
 	if arr == nil {
